@@ -735,42 +735,77 @@ _CREATING = {"def", "defo", "new", "copy", "copynt", "copynf", "move", "union", 
              "useless", "cand", "reduce", "reindex", "totd"}
 
 
-def cap_products(case, sep, cap):
+def _tok_size(tok, sep):
+    """(number of states, number of transitions / rules) of an automaton token (NFA `src,sym,dst;…|…|…` or TA `sym:k,k>p;…|…`)"""
+    parts = tok.split("|")
+    items = [x for x in parts[0].split(";") if x]
+    st = set()
+    for it in items:
+        if sep == ":":                       # NFA
+            f = it.split(",")
+            if len(f) == 3:
+                st.add(f[0]); st.add(f[2])
+        else:                                # TA
+            if ">" in it:
+                lhs, p_ = it.split(">")
+                st.add(p_)
+                ks = lhs.split(":", 1)[1] if ":" in lhs else ""
+                st.update(k for k in ks.split(",") if k)
+    for extra in parts[1:]:
+        st.update(x for x in extra.replace(".", ",").split(",") if x)
+    return max(1, len(st)), max(1, len(items))
+
+
+def cap_products(case, sep, cap, max_states=150, max_trans=2500):
     """Repeated intersections of results grow as n^(2^k) (a 5-state NFA intersected with itself three times has 390 625 product
-    states: minutes of honest work, reported as TIMEOUT by the watchdog).  Tracks the product nesting level of every entry through
-    the history and turns an intersection that would exceed `cap` into a trimming step of its first operand (the number of
+    states, an 8-state NFA with 36 transitions intersected with itself twice 1.7 million transitions: minutes of honest work,
+    reported as TIMEOUT by the watchdog).  Tracks the product nesting level and an upper bound of the size of every entry through
+    the history and turns an intersection that would exceed the caps into a trimming step of its first operand (the number of
     entries created stays the same, so later indices keep their meaning)."""
     toks = case.split(" ")
     head, steps = toks[0], toks[1:]
-    pre = []
-    if head == "bddh":
-        pre, steps = steps[:1], steps[1:]
-    level = []
+    level, size = [], []
     out = []
     for st in steps:
         f = st.split(sep)
         op = f[0]
 
-        def lv(k):
+        def ix(k):
             try:
-                return level[int(f[k])]
+                v = int(f[k])
+                return v if 0 <= v < len(level) else None
             except (ValueError, IndexError):
-                return 0
+                return None
+
+        def lv(k):
+            return level[ix(k)] if ix(k) is not None else 0
+
+        def sz(k):
+            return size[ix(k)] if ix(k) is not None else (1, 1)
         if op in ("isect", "isectbu"):
             l = max(lv(1), lv(2)) + 1
-            if l > cap:
+            ns, nt = sz(1)[0] * sz(2)[0], sz(1)[1] * sz(2)[1]
+            if l > cap or ns > max_states or nt > max_trans:
                 st = sep.join(["useless", f[1]])
-                l = lv(1)
-            level.append(l)
+                l, ns, nt = lv(1), sz(1)[0], sz(1)[1]
+            level.append(l); size.append((ns, nt))
         elif op in ("union", "uniondisj"):
-            level.append(max(lv(1), lv(2)))
-        elif op in ("assign", "moveassign"):
-            if len(f) > 2 and f[1].isdigit() and int(f[1]) < len(level):
-                level[int(f[1])] = lv(2)
+            level.append(max(lv(1), lv(2))); size.append((sz(1)[0] + sz(2)[0], sz(1)[1] + sz(2)[1]))
+        elif op in ("assign", "moveassign", "massign"):
+            if ix(1) is not None:
+                level[ix(1)] = lv(2); size[ix(1)] = sz(2)
+        elif op in ("def", "defo", "load"):
+            level.append(0); size.append(_tok_size(st[len(op) + 1:], sep))
+        elif op == "new":
+            level.append(0); size.append((1, 1))
         elif op in _CREATING:
-            level.append(lv(1) if op not in ("def", "defo", "new") else 0)
+            level.append(lv(1)); size.append(sz(1))
+        elif op in ("add", "addt", "final", "finals", "start", "loadinto"):
+            if ix(1) is not None:
+                a, b = size[ix(1)]
+                size[ix(1)] = (a + 4, b + (8 if op == "loadinto" else 1))
         out.append(st)
-    return " ".join([head] + pre + out)
+    return " ".join([head] + out)
 
 # ---------------------------------------------------------------- labelled transition systems
 def g_lts(rng):
@@ -1444,7 +1479,7 @@ def _capped(g, sep, cap):
     return lambda rng: cap_products(g(rng), sep, cap)
 
 
-for _k, _sep, _cap in [("nfah_ops", ":", 2), ("nfah_hist", ":", 2), ("tah_hist", "!", 1)]:
+for _k, _sep, _cap in [("nfah_ops", ":", 2), ("nfah_hist", ":", 2), ("tah_hist", "!", 1), ("nfas", ":", 2)]:
     GENERATORS[_k] = _capped(GENERATORS[_k], _sep, _cap)
 
 
